@@ -219,7 +219,7 @@ def gen_master_ast(rng, feats):
         if rng.random() < 0.25:
             items.append(("variant", {"kind": "iframe", "uri": rng.choice(G.URIS + ["x,y"]), "sd": sd_ast(rng, groups["VIDEO"])})); hit("I-FRAME-STREAM-INF")
         else:
-            v = {"kind": "stream", "uri": rng.choice(G.URIS), "sd": sd_ast(rng, groups["VIDEO"])}
+            v = {"kind": "stream", "uri": rng.choice(G.LINE_URIS), "sd": sd_ast(rng, groups["VIDEO"])}
             if rng.random() < 0.4:
                 v["fr_lit"] = "%d.%03d" % (rng.randint(0, 240), rng.randint(0, 999)) if rng.random() < 0.7 else rng.choice(["25", "29.97", "60", "0.5", "120.0", "23.976023976", "1e1"])
                 v["fr_bits"] = f32_bits(v["fr_lit"])
@@ -416,7 +416,7 @@ def gen_media_ast(rng, feats, k1=False, k8=False):
     prev_end, prev_uri = None, None
     methods = ["AES-128"] if (a["indep"] and not k1) else ["AES-128", "AES-128", "SAMPLE-AES"]
     for i in range(n):
-        s = {"events": [], "uri": rng.choice(G.URIS)}
+        s = {"events": [], "uri": rng.choice(G.LINE_URIS)}
         while rng.random() < 0.3:
             if rng.random() < 0.2 and (not a["indep"] or k1):
                 s["events"].append(("keynone", None)); hit("KEY-NONE")
